@@ -97,10 +97,27 @@ func verifSchedRun(spec *VerifSchedSpec) (res *VerifSchedResult) {
 				word = word[k+1:]
 			}
 			var out []string
+			var raw []Completion
+			rich := false
 			for _, v := range vals {
-				if strings.HasPrefix(v, word) {
-					out = append(out, v)
+				// "value|description|tag": a described and/or tagged candidate
+				parts := strings.SplitN(v, "|", 3)
+				if !strings.HasPrefix(parts[0], word) {
+					continue
 				}
+				out = append(out, parts[0])
+				cp := Completion{Value: parts[0]}
+				if len(parts) > 1 {
+					cp.Description = parts[1]
+					rich = true
+				}
+				if len(parts) > 2 {
+					cp.Tag = parts[2]
+				}
+				raw = append(raw, cp)
+			}
+			if rich {
+				return CompleteRaw(raw)
 			}
 			return CompleteValues(out...)
 		}
